@@ -215,11 +215,11 @@ fn fixed_nested(ctx: &Ctx) -> CaseInfo {
 pub fn def() -> PropertyDef {
     PropertyDef {
         id: "C05",
-        rule: "family S programs (nested cond/conjunction/fresh/closure, ==/!=, member/member1/append/rember/permute/distinct and harness recursive relations on literal lists; finite search tree by construction) wrapped in dfs{} with a ticket fngoal as last goal of the block. Oracle: reference depth-first interpreter, position by position: (a) the answer carrying ticket i equals the reference's i-th answer and tickets are 0..n-1 (order in which states leave the depth-first block), (b) the iterator yields the same order (suppressed only for the listed finding C05-reify-overtakes, and only when answers differ in cons-shape and (a) holds). Non-trivial = >=3 answers and the same program under interleaving search produces another ticket order; distinct = hash of the printed program. Family `scale`: one disjunction of up to 400 (thorough 2000) clauses, up to 200 consecutive binary choice points pruned by constraints, or member / memberrev (recursive clause first) / append / zeros (non-tail recursion) / member1 / lenle / rember / downfrom / nrev over a literal list of up to 400 elements, alone, next to a small choice, or as one branch of a disjunction",
+        rule: "family S programs (nested cond/conjunction/fresh/closure, ==/!=, member/member1/append/rember/permute/distinct and harness recursive relations on literal lists; finite search tree by construction) wrapped in dfs{} with a ticket fngoal as last goal of the block. Oracle: reference depth-first interpreter, position by position: (a) the answer carrying ticket i equals the reference's i-th answer and tickets are 0..n-1 (order in which states leave the depth-first block), (b) the iterator yields the same order (suppressed only for the listed finding C05-reify-overtakes, and only when answers differ in cons-shape and (a) holds). Non-trivial = >=3 answers and the same program under interleaving search produces another ticket order; distinct = hash of the printed program. Family `scale`: one disjunction of up to 400 (thorough 1000) clauses, up to 200 consecutive binary choice points pruned by constraints, or member / memberrev (recursive clause first) / append / zeros (non-tail recursion) / member1 / lenle / rember / downfrom / nrev over a literal list of up to 400 elements, alone, next to a small choice, or as one branch of a disjunction",
         assumptions: vec!["reference interpreter and its mirrored relation definitions are correct", "answers compared up to renaming and constraint equivalence over a finite universe"],
         families: vec![
             Family { name: "search-dfs", max_len: 200, quick: 400_000, thorough: 8_000_000, run: run_family },
-            Family { name: "scale", max_len: 48, quick: 6_000, thorough: 100_000, run: run_scale },
+            Family { name: "scale", max_len: 48, quick: 6_000, thorough: 60_000, run: run_scale },
         ],
         fixed: vec![Fixed { name: "nested-cond-member-append", run: fixed_nested }],
         witnesses: vec![Witness { finding: FINDING_REIFY, run: w_reify }],
